@@ -63,7 +63,7 @@ def strategy_spec(hostile: bool = True, styles=ALL_STYLES, max_ticks: int = 128)
         {
             "vals": st.lists(strategy_value(hostile, max_ticks), min_size=1, max_size=4),
             "style": st.sampled_from(list(styles)),
-        }
+        },
     )
 
 
@@ -87,13 +87,13 @@ def script_entry(draw, p):
     if kind in ("exc", "res", "copen", "rexh"):
         e["klass"] = draw(klass_st(p.get("p_retryable", 0.7)))
     if kind == "exc" and chance(draw, p.get("etypes", 0.25), "etype"):
-        e["etype"] = draw(st.sampled_from(["TimeoutError", "ConnectionError", "KeyError", "AssertionError", "ValueError", "OSError", "FalsyError", "FalsyError", "Group:TRANSIENT", "Group:PERMANENT", "Group:UNKNOWN"]))
+        e["etype"] = draw(st.sampled_from(["TimeoutError", "ConnectionError", "KeyError", "AssertionError", "ValueError", "OSError", "FalsyError", "FalsyError", "Group:TRANSIENT", "Group:PERMANENT", "Group:UNKNOWN", "RuntimeError:0", "RuntimeError:1", "RuntimeError:3"]))
     if kind == "exc" and chance(draw, p.get("reraise", 0.1), "reraise"):
         e["reraise_prev"] = True
     if kind == "exc" and chance(draw, p.get("chains", 0.12), "chain"):
         e["chain"] = [draw(st.sampled_from(["context", "cause"])), draw(st.sampled_from(["CircuitOpenError", "CircuitOpenError", "AbortRetryError", "KeyError", "TimeoutError"]))]
     if kind in ("res", "ok") and chance(draw, p.get("odd_results", 0.2), "rval"):
-        e["rval"] = draw(st.sampled_from(["none", "falsy", "falsy", "awaitable", "exc_instance"]))
+        e["rval"] = draw(st.sampled_from(["none", "falsy", "falsy", "awaitable", "exc_instance", "weird_eq", "bad_repr"]))
     if kind in ("exc", "res") and p.get("classifier_time") and chance(draw, p["classifier_time"], "cdur"):
         e["cdur"] = draw(st.sampled_from([1, 2, 4, 16, 64]))
     if kind in ("exc", "res"):
@@ -167,6 +167,11 @@ def retry_cfg(draw, p):
         )
     if chance(draw, 0.93 if not cfg.get("strategies") else 0.7, "s11"):
         cfg["default"] = draw(strategy_spec(hostile, styles, max_ticks))
+    if p.get("record_failure_time"):
+        for spec in list((cfg.get("strategies") or {}).values()) + ([cfg["default"]] if cfg.get("default") else []):
+            if chance(draw, p["record_failure_time"], "rfdur"):
+                spec["style"] = "obj"  # a strategy object whose record_failure() bookkeeping takes time
+                spec["rfdur"] = draw(st.sampled_from([1, 4, 16, 64]))
     at = p.get("attempt_timeout", 0)
     if at and chance(draw, at, "attempt-timeout"):
         cfg["attempt_timeout"] = 5.0  # real seconds on the sync thread-pool path (never fires: the scripted operation returns at once; a hang ends after 5 s); virtual for wait_for
@@ -200,6 +205,15 @@ def retry_case(draw, p):
         case["jumps"] = draw(st.lists(st.sampled_from([0, 3600, -3600, 86400, -86400 * 365, 0.5]), min_size=1, max_size=6))
     if p.get("placements"):
         case["placement"] = draw(placement(p))
+    if p.get("offgrid_delays") and chance(draw, p["offgrid_delays"], "offgrid"):
+        off = [1 / 3, 0.1234567891, 2.5e-07, 1e-07, 0.7071067811865476, 2.00000049]
+        for spec in list((cfg.get("strategies") or {}).values()) + ([cfg["default"]] if cfg.get("default") else []):
+            spec["vals"] = [draw(st.sampled_from(off)) for _ in spec["vals"]]
+        for c in calls:
+            c["overshoot"] = [{"skip": True, "plus": 0}] * (cfg["max_attempts"] + 1)
+    if p.get("falsy_components") and chance(draw, p["falsy_components"], "falsy-comp"):
+        if cfg.get("budget"):
+            cfg["budget"]["falsy"] = True
     if chance(draw, p.get("falsy_callbacks", 0.15), "falsy-cb"):
         pl = case.setdefault("placement", {})
         pl["falsy"] = draw(
@@ -238,6 +252,7 @@ def breaker_spec():
             "recovery": st.sampled_from([16, 64, 640, 1920]),
         },
         optional={
+            "falsy": st.sampled_from([True, False, False]),
             "trip_on": st.one_of(st.none(), st.lists(st.sampled_from(ALL), max_size=4, unique=True)),
             "class_thresholds": st.dictionaries(st.sampled_from(ALL), st.integers(1, 3), max_size=2),
         },
